@@ -55,6 +55,8 @@
 use {slab::Slab, std::convert::TryFrom, std::mem};
 
 use crate::Stakker;
+#[cfg(uazu_stakker_verif)]
+use crate::verif_std as std;
 use std::ops::{Index, IndexMut};
 use std::sync::atomic::{AtomicUsize, Ordering};
 use std::sync::{Arc, Mutex};
